@@ -170,15 +170,29 @@ def rule_key_table(ctx, crate, rule="R-KEY-TABLE"):
     if not b:
         return
     pos_calls = b.calls(r"state::ProgressState::pos")
-    uo = [c for c in b.calls(r"std::option::Option::<T>::unwrap_or") if b.slice_args(c, [0], through_calls=False).has_call(r"state::ProgressState::len")]
+    uo = [c for c in b.calls(r"std::option::Option::<T>::(unwrap_or|map_or|map_or_else|unwrap_or_else)") if b.slice_args(c, [0], through_calls=False).has_call(r"state::ProgressState::len")]
     if len(pos_calls) != 1 or len(uo) != 1:
-        ctx.lost(rule, cfg, "cannot identify the pos / len locals of format_state (pos() calls: %d, len().unwrap_or: %d)" % (len(pos_calls), len(uo)))
+        ctx.lost(rule, cfg, "cannot identify the pos / len locals of format_state (pos() calls: %d, len() defaulting calls: %d)" % (len(pos_calls), len(uo)))
         return
     pos_l, len_l = pos_calls[0].dest["l"], uo[0].dest["l"]
     # a missing length renders as the position
     sl = b.slice_args(uo[0], [1], through_calls=False)
     ctx.check(any(c.bb == pos_calls[0].bb for c in sl.calls), rule, "len-defaults-to-pos", b.name, uo[0].loc(),
               "len = state.len().unwrap_or(pos)", "a missing length does not render as the position", cfg)
+    # ... and a known length renders as itself: "equal the getters"
+    ident = True
+    why = ""
+    if K.meth(uo[0].path) in ("map_or", "map_or_else"):
+        ident = False
+        why = "the closure applied to a known length is not the identity"
+        l2 = operand_local(uo[0].args[-1])
+        for d in b.defs().get(l2, ()) if l2 is not None else ():
+            if d["kind"] == "assign" and d["rv"]["k"] == "agg" and d["rv"].get("ak") == "closure" and d["rv"]["def"] in crate.bodies:
+                cb = crate.bodies[d["rv"]["def"]]
+                rs = [cb.slice_rv(x["bb"], {"lhs": x["lhs"], "rv": x["rv"]}) if x["kind"] == "assign" else cb.slice_args(x["call"]) for x in cb.defs().get(0, ()) if x["kind"] in ("assign", "call")]
+                ident = bool(rs) and all(r.params() == {2} and not r.calls and not [a for a in r.atoms if a[0] in ("binop", "unop", "field")] for r in rs)
+    ctx.check(ident, rule, "len-is-the-length", b.name, uo[0].loc(), "a known length is rendered unmodified",
+              "the length used by the len/total keys is not ProgressBar::length(): %s" % why, cfg)
     for c in pos_calls + [x for x in b.calls(r"state::ProgressState::len")]:
         ctx.check(b.slice_args(c, [0]).params() == {2}, rule, "reads-live-state:%s" % K.meth(c.path), b.name, c.loc(),
                   "%s() is read from the state being drawn" % K.meth(c.path), "%s() is read from another state" % K.meth(c.path), cfg)
